@@ -34,7 +34,7 @@ Definition small_cmds (st : store) : Prop :=
 
 Lemma get_from_sub s l c : In c (get_from s l) -> In c (g_cmds s).
 Proof.
-  unfold get_from. destruct (_ && _); [|intros []]. revert c. generalize (N.to_nat (lmc l - g_first s)).
+  unfold get_from. destruct (_ && _ && _); [|intros []]. revert c. generalize (N.to_nat (lmc l - g_first s)).
   intros n c Hc. rewrite <- (firstn_skipn n (g_cmds s)). apply in_or_app. now right.
 Qed.
 
@@ -67,8 +67,10 @@ Qed.
 Lemma entry_cmds_valid st l : wf_store st -> valid_loc st l -> entry_cmds st l <> [].
 Proof.
   intros W (s & Hf & Hr). unfold entry_cmds. rewrite Hf. pose proof Hf as Hf'. apply find_seg_some in Hf' as [Hin Hidx].
-  unfold get_from. rewrite Hidx, N.eqb_refl. destruct (N.leb_spec (g_first s) (lmc l)); [|lia]. cbn [andb].
-  pose proof (seg_len_pos _ _ W Hin). unfold seg_longest, seg_len in *.
+  pose proof (seg_len_pos _ _ W Hin).
+  unfold get_from. rewrite Hidx, N.eqb_refl. destruct (N.leb_spec (g_first s) (lmc l)); [|lia].
+  destruct (N.ltb_spec (lmc l - g_first s) (seg_len s)); [|unfold seg_longest in *; lia]. cbn [andb].
+  unfold seg_longest, seg_len in *.
   intro E. apply (f_equal (@length _)) in E. rewrite skipn_length in E. cbn in E. lia.
 Qed.
 
@@ -77,10 +79,9 @@ Proof.
   unfold entry_cmds. destruct (find_seg (st_segs st) (lseg l)) as [s|] eqn:Ef; [|congruence].
   intro Hne. exists s. split; auto. unfold get_from in Hne.
   destruct (g_idx s =? lseg l); cbn [andb] in Hne; [|congruence].
-  destruct (N.leb_spec (g_first s) (lmc l)); [|congruence].
-  destruct (Nat.ltb_spec (N.to_nat (lmc l - g_first s)) (length (g_cmds s))).
-  - unfold seg_longest, seg_len. lia.
-  - rewrite skipn_all2 in Hne by lia. congruence.
+  destruct (N.leb_spec (g_first s) (lmc l)); cbn [andb] in Hne; [|congruence].
+  destruct (N.ltb_spec (lmc l - g_first s) (seg_len s)); [|congruence].
+  unfold seg_longest. lia.
 Qed.
 
 Lemma skipn_add {A} (l : list A) : forall a b, skipn a (skipn b l) = skipn (b + a) l.
@@ -96,8 +97,10 @@ Lemma entry_cmds_resume st l k : (k < length (entry_cmds st l))%nat ->
 Proof.
   unfold entry_cmds. cbn [lseg]. destruct (find_seg _ _) as [s|]; [|cbn; intro; lia].
   unfold get_from. cbn [lseg lmc]. destruct (g_idx s =? lseg l); cbn [andb]; [|cbn; intro; lia].
-  destruct (N.leb_spec (g_first s) (lmc l)); [|cbn; intro; lia].
-  intro Hk. destruct (N.leb_spec (g_first s) (lmc l + N.of_nat k)); [|lia].
+  destruct (N.leb_spec (g_first s) (lmc l)); cbn [andb]; [|cbn; intro; lia].
+  destruct (N.ltb_spec (lmc l - g_first s) (seg_len s)); [|cbn; intro; lia].
+  rewrite skipn_length. intro Hk. destruct (N.leb_spec (g_first s) (lmc l + N.of_nat k)); [|lia].
+  destruct (N.ltb_spec (lmc l + N.of_nat k - g_first s) (seg_len s)); [|unfold seg_len in *; lia]. cbn [andb].
   rewrite skipn_add. f_equal. lia.
 Qed.
 
